@@ -610,6 +610,9 @@ fn model_of_ir(ir: &Ir) -> Model {
 // ---------------------------------------------------------------------------- run
 
 fn run(cx: &Cx) {
+    if let Err(e) = agv_c17::model::self_test() {
+        return cx.machinery_error(e);
+    }
     let quick = cx.quick();
     let cnt = Counters::default();
     let wd = || std::sync::Arc::new(s1::Wd::new(Default::default()));
